@@ -58,7 +58,7 @@ struct RxHarness : HarnessBase {
 		for(uint64_t k : S) for(int j = 0; j < 16; j++) { probe.push_back(k ^ (uint64_t(1) << (4 * j))); probe.push_back(k ^ (uint64_t(8) << (4 * j))); }
 		std::sort(probe.begin(), probe.end()); probe.erase(std::unique(probe.begin(), probe.end()), probe.end());
 	}
-	const char *prop() const { return "C09"; }
+	const char *prop() const { return wanted_prop() == "C16" ? "C16" : "C09"; }   // C16 runs this harness too: a crash, sanitizer report or assertion then counts for it
 	Tree &t() { return *reinterpret_cast<Tree *>(store); }
 	void reset() {
 		heap().blocks.clear(); // arena blocks must not reach ::free
